@@ -425,16 +425,25 @@ func directedBufHistories() [][2]interface{} {
 			[2]interface{}{c, []bufOp{{Op: "rec", N: flushInterval}, {Op: "restart", Cap: c}, {Op: "rec", N: c + 1}}},
 			[2]interface{}{c, []bufOp{{Op: "rec", N: 3*flushInterval + 50}, {Op: "restart", Cap: c}}},
 			[2]interface{}{c, []bufOp{{Op: "rec", N: c + 2}, {Op: "reset", J: 5}, {Op: "rec", N: c}, {Op: "rec", N: 1}}},
+			[2]interface{}{c, []bufOp{{Op: "rec", N: 3}, {Op: "reset", J: 50000}, {Op: "rec", N: 5}, {Op: "restart", Cap: c}, {Op: "rec", N: c + 1}}},
+			[2]interface{}{c, []bufOp{{Op: "reset", J: 50000}, {Op: "rec", N: flushInterval + 5}, {Op: "restart", Cap: c}}},
 		)
 	}
 	return out
 }
 
 func bufferPhase(r *ev.Run, rng *rand.Rand) {
+	shrunk := map[string]bool{}
 	report := func(cap0 int, ops []bufOp, v *bufVerdict) {
 		if v == nil {
 			return
 		}
+		if shrunk[v.Key] {
+			// counted; the minimal witness of this kind has been written already
+			r.Violation("history-buffer:"+v.Key, v.What, nil)
+			return
+		}
+		shrunk[v.Key] = true
 		mc, mops := shrinkBuf(cap0, ops, v.Key)
 		mv := runBufHistory(mc, mops, nil)
 		if mv == nil || mv.Key != v.Key {
